@@ -532,9 +532,8 @@ pub fn pred_c08(s: &Session) -> String {
                 if d.is_empty() {
                     return format!("FAIL:empty frame at step {}", i);
                 }
-                if d.len() > s.cap {
-                    return format!("FAIL:frame of {} bytes exceeds chunk size {}", d.len(), s.cap);
-                }
+                // (how large a frame may be is not something C08 says: the model comparison knows
+                // the current chunking, the property does not care)
                 delivered.extend_from_slice(d);
             }
             Obs::PErr => return format!("FAIL:body reported an error at step {}", i),
@@ -1006,10 +1005,8 @@ pub fn c09(em: &mut Emit, thorough: bool, seed: u64) {
             ok = false;
             why = "body does not gunzip to the bytes written".into();
         }
-        if ok && s.steps.iter().any(|st| matches!(&st.obs, Obs::Data(d) if d.is_empty() || d.len() > cap)) {
-            ok = false;
-            why = "empty or oversized frame".into();
-        }
+        // (an empty frame is C08's business, frame sizes are the model comparison's)
+        let _ = cap;
         let p = if s.panicked { "FAIL:panic".to_string() } else { pred(ok, || why.clone()) };
         emit(em, &s, p, class_of(&s, &format!("l{}", level)));
     }
